@@ -239,7 +239,8 @@ def register(prop, suites, assumptions=None):
     PROPS[prop] = dict(suites=suites, assumptions=assumptions or [])
 
 register('C07', [l0_suite(['order', 'layer', 'layerpair'], monitor=c07_monitor,
-                          nontrivial_keys=c07_nontrivial)],
+                          nontrivial_keys=c07_nontrivial),
+                 lambda ctx: l2_suite('faults', name='l2-faults', quick=60, thorough=1200)(ctx)],
          ['SQLite never passes NaN to a virtual table (it converts NaN to NULL)', 'int64 / binary64 value ranges'])
 register('C17', [l0_suite(['lww']), l1_suite(['plain', 'cb'])],
          ['kv default configuration: int keys, string values; gob/JSON codecs are third-party'])
@@ -340,12 +341,32 @@ def l2_suite(profile, quick=60, thorough=1500, native=True, name=None, extra_mon
                 if re.search(r'; ok( nat:ok)? M \[ P', a) and re.search(r'; S[AD] ok [1-9]', a):
                     res.nontrivial += 1
             # --- model correspondence, op by op
+            excused_from = None
+            def phantom_excuse(c, j, x, y):
+                try:
+                    if not rolled_back_insert_excuse(c, j, x, y):
+                        return False
+                except (ValueError, IndexError):
+                    return False
+                m = dict(suite=res.name, case=c, op_index=j, impl=' '.join(x)[:600], model=' '.join(y)[:600],
+                         what='a row inserted by a rolled-back transaction stays visible (multi-level tree; mast follow() links the new leaf into a shared node)')
+                kid = known_match(ctx, 'rolled_back_insert_stays_visible')
+                if kid:
+                    m['finding'] = kid; res.known_hits.append(m)
+                elif ctx.prop in ('C05', 'C14'):
+                    res.property_failures.append(m)
+                else:
+                    res.stats_excused = getattr(res, 'stats_excused', 0) + 1   # recorded under C05 (finding F-C05-1)
+                return True
             if len(iops) != len(mops):
                 res.mismatches.append(dict(suite=res.name, case=c, impl=' ; '.join(' '.join(x) for x in iops)[:3000], model=' ; '.join(' '.join(x) for x in mops)[:3000]))
             else:
                 for j, (x, y) in enumerate(zip(iops, mops)):
                     if x == y:
                         continue
+                    if phantom_excuse(c, j, x, y):
+                        excused_from = j
+                        break
                     if desc_sparse_excuse(c, x, y) and ctx.prop not in ('C06', 'C08'):
                         res.stats_excused = getattr(res, 'stats_excused', 0) + 1
                         continue   # recorded under C06 (finding F-C06-2); not what this property is about
@@ -364,9 +385,14 @@ def l2_suite(profile, quick=60, thorough=1500, native=True, name=None, extra_mon
             for j, (s3, nat) in enumerate(pairs):
                 if nat is None or not native:
                     continue
+                if excused_from is not None and j + 1 >= excused_from:
+                    break
                 s3c = s3[:s3.index('M')] if 'M' in s3 else s3
                 if s3c == nat:
                     continue
+                if phantom_excuse(c, j + 1, s3c, nat):
+                    excused_from = j + 1
+                    break
                 m = dict(suite=res.name, case=c, op_index=j + 1, impl=' '.join(s3c)[:1500], spec=' '.join(nat)[:1500],
                          what='s3db table and native SQLite table disagree on the same statement')
                 if desc_sparse_excuse(c, s3c, mask_empty_text(nat)) or desc_sparse_excuse(c, s3c, nat):
@@ -381,13 +407,117 @@ def l2_suite(profile, quick=60, thorough=1500, native=True, name=None, extra_mon
                     m['finding'] = kid; res.known_hits.append(m)
                 else:
                     res.property_failures.append(m)
-            if extra_monitor:
+            if extra_monitor and excused_from is None:
                 extra_monitor(ctx, res, c, a, mline, spec)
             if len(res.samples) < 2 and k % 17 == 3:
                 res.samples.append(dict(case=c[:700], impl=a[:500]))
         res.stats = read_stats(outdir)
         return res
     return f
+
+def sql_ops_full(case):
+    """every op of a sqlhist case in order: dict(kind, conn, key, skipped); an F annotation is an
+    op of its own (kind 'F'); a statement left out after a fault has skipped=True"""
+    t = case.split()
+    i = 6
+    out = []
+    def sval(i): return (t[i],) if t[i] == 'N' else (t[i], t[i + 1])
+    def names(i): return i + 1 + int(t[i])
+    skipped_until = -1
+    while i < len(t):
+        k = t[i]
+        sk = i < skipped_until
+        if k == 'F':
+            out.append(dict(kind='F', conn=-1, key=None, skipped=False, on=t[i + 1]))
+            if int(t[i + 3]) > 0: skipped_until = i + 4 + int(t[i + 3])
+            i += 4
+            continue
+        c = int(t[i + 1]); key = None
+        if k == 'conn': i += 2
+        elif k == 'create': i = names(names(i + 3))
+        elif k in ('wt', 'dl'): i += 3
+        elif k == 'ins':
+            key = sval(i + 2); j = i + 2 + len(key); n = int(t[j]); j += 1
+            for _ in range(n): j += len(sval(j))
+            i = names(j)
+        elif k == 'upd':
+            key = sval(i + 2); j = i + 2 + len(key); n = int(t[j]); j += 1
+            for _ in range(n):
+                if t[j] == '_': j += 1
+                else: j += 1 + len(sval(j + 1))
+            i = names(j)
+        elif k == 'del':
+            key = sval(i + 2); i = names(i + 2 + len(key))
+        elif k == 'sel':
+            j = i + 3; n = int(t[j]); j += 1
+            for _ in range(n): j += 1 + len(sval(j + 1))
+            i = j + 1
+        elif k in ('begin', 'commit', 'rollback'): i = names(i + 2)
+        elif k == 'refresh': i = names(names(i + 2))
+        elif k in ('version', 'rdconn'): i += 2
+        elif k == 'vacuum': i = names(names(names(i + 3)))
+        elif k == 'changes': i = names(names(i + 2))
+        else: raise ValueError('sql_ops_full: ' + k)
+        out.append(dict(kind=k, conn=c, key=key, skipped=sk))
+    return out
+
+def rolled_back_insert_excuse(case, j, got, want):
+    """finding F-C05-1 (mast links a new leaf into a node shared with the pre-transaction
+    snapshot): in a table whose tree has several levels, a row INSERTed by a transaction that was
+    rolled back (explicitly, or by a failing statement or commit) stays visible to the connection
+    and is persisted by its next commit.  Shape, at the FIRST divergence of a history (segment j,
+    op j-1): the table has a small entries_per_node; the op is on a connection with such rolled-back
+    INSERT keys R; and either it is a SELECT returning the expected rows plus rows with keys in R,
+    or a write addressing a key in R, or the COMMIT of a transaction that addressed a key in R."""
+    t = case.split()
+    if t[1] != 'sqlhist' or t[3] == '0':
+        return False
+    ops = sql_ops_full(case)
+    if not (1 <= j <= len(ops)):
+        return False
+    o = ops[j - 1]
+    R, txkeys, touched, failed_commit = {}, {}, {}, set()
+    prev = None
+    for q in ops[:j - 1]:
+        c = q['conn']
+        if q['kind'] == 'begin' and not q['skipped']:
+            txkeys[c] = set(); touched[c] = set()
+        elif q['kind'] == 'ins':
+            if q['skipped']:
+                R.setdefault(c, set()).add(q['key'])
+                if prev and prev['kind'] == 'F' and prev.get('on') == 'P': failed_commit.add(c)
+            elif c in txkeys:
+                txkeys[c].add(q['key'])
+        elif q['kind'] == 'rollback' or (q['kind'] == 'commit' and q['skipped']):
+            if q['kind'] == 'commit' and txkeys.get(c): failed_commit.add(c)
+            R.setdefault(c, set()).update(txkeys.pop(c, set())); touched.pop(c, None)
+        elif q['kind'] == 'commit':
+            txkeys.pop(c, None); touched.pop(c, None)
+        if q['kind'] in ('ins', 'upd', 'del') and c in touched:
+            touched[c].add(q['key'])
+        prev = q
+    r = R.get(o['conn'], set())
+    if not r:
+        return False
+    if o['kind'] in ('ins', 'upd', 'del'):
+        return o['key'] in r
+    if o['kind'] == 'commit':
+        return bool(touched.get(o['conn'], set()) & r)
+    if o['kind'] == 'sel':
+        if len(got) >= 2 and got[1] == 'err' and o['conn'] in failed_commit:
+            # the leaf of an INSERT whose commit failed was never stored, but mast marked it clean
+            # (root cause of F-C14-1) and it hangs off the snapshot: the scan asks storage for it
+            return True
+        if len(got) < 2 or len(want) < 2 or got[0] != want[0] or got[1] != 'ok' or want[1] != 'ok':
+            return False
+        cut = lambda x: x[:x.index('M')] if 'M' in x else x
+        g, w = rows_by_key(cut(got)[1:]), rows_by_key(cut(want)[1:])
+        if g is None or w is None:
+            return False
+        extra = set(g) - set(w)
+        keytok = lambda k: tuple(k.split()) if isinstance(k, str) else tuple(k)
+        return bool(extra) and all(keytok(k) in r for k in extra) and all(g[k] == w[k] for k in w if k in g) and set(w) <= set(g)
+    return False
 
 def parse_sql_ops(case):
     """sqlhist case line -> list of (kind, conn, key_tokens, extra) for write ops"""
@@ -398,8 +528,15 @@ def parse_sql_ops(case):
         return (t[i],) if t[i] == 'N' else (t[i], t[i + 1])
     def names(i):
         n = int(t[i]); return i + 1 + n
+    skip_to = -1
     while i < len(t):
         k = t[i]
+        if k == 'F':
+            # a storage fault for the next statement; skip > 0: the statement failed and is left out
+            if int(t[i + 3]) > 0: skip_to = i + 4 + int(t[i + 3])
+            i += 4
+            if skip_to > 0: i = skip_to; skip_to = -1
+            continue
         if k == 'conn': i += 2
         elif k == 'create': i = names(names(i + 3))
         elif k == 'wt': ops.append(('wt', int(t[i + 1]), None, int(t[i + 2]))); i += 3
@@ -594,6 +731,11 @@ def parse_sql_kinds(case):
     def names(i): return i + 1 + int(t[i])
     while i < len(t):
         k = t[i]
+        if k == 'F':
+            out.append(('F', -1)); sk = int(t[i + 3]); i += 4
+            if sk > 0:
+                out.append(('x' + t[i], int(t[i + 1]))); i += sk
+            continue
         if k == 'conn': out.append((k, int(t[i + 1]))); i += 2
         elif k == 'create': out.append((k, int(t[i + 1]), t[i + 2])); i = names(names(i + 3))
         elif k in ('wt', 'dl'): out.append((k, int(t[i + 1]))); i += 3
@@ -725,12 +867,14 @@ register('C10', [l1_suite(['rows', 'plain']), l2_suite('vacuum', native=False, e
          ['version creation times are passed explicitly at the kv level'])
 register('C15', [l2_suite('conn', native=False, extra_monitor=lambda *a: (c15_monitor(*a), c02_monitor(*a)), name='l2-conn')],
          ['write times have second granularity (SQLiteTimeFormat)'])
-register('C05', [l2_suite('tx', name='l2-tx'), l2_suite('multi', native=False, extra_monitor=c02_monitor, name='l2-multi')],
+register('C05', [l2_suite('tx', name='l2-tx'), l2_suite('multi', native=False, extra_monitor=c02_monitor, name='l2-multi'),
+                 l2_suite('faults', name='l2-faults', quick=80, thorough=1500)],
          ['SQLite calls xBegin once per transaction before the first xUpdate'])
 register('C12', [l2_suite('changes', native=False, name='l2-changes'), l1_suite(['rows'], name='l1f', quick=120)],
          ['storage faults around the two version opens of a diff are injected at the kv level (L1); the SQL level runs fault-free'])
 register('C11', [l2_suite('changes', native=False, name='l2-changes'), l1_suite(['rows', 'plain'])], [])
-register('C16', [l2_suite('multi', native=False, extra_monitor=c02_monitor, name='l2-multi'), l0_suite(['nodecodec']), l1_suite(['rows'])], [])
+register('C16', [l2_suite('multi', native=False, extra_monitor=c02_monitor, name='l2-multi'), l0_suite(['nodecodec']), l1_suite(['rows']),
+                 l2_suite('faults', name='l2-faults', quick=80, thorough=1500)], [])
 def c14_monitor(ctx, res, case, impl_line, model_line, spec):
     """an acknowledged commit whose contents a later open cannot find (the oracle marks the
     operation: LIE:<op index>; the implementation agreed with the model on that operation)"""
@@ -751,8 +895,9 @@ def c14_monitor(ctx, res, case, impl_line, model_line, spec):
                 res.property_failures.append(m)
             return
 
-register('C14', [l1_suite(['rows', 'plain', 'cb'], name='l1f', quick=250, monitor=c14_monitor)],
-         ['faults are injected at the kv level (in-process store); hangs are bounded by the harness timeout'])
+register('C14', [l1_suite(['rows', 'plain', 'cb'], name='l1f', quick=250, monitor=c14_monitor),
+                 l2_suite('faults', name='l2-faults', quick=80, thorough=1500)],
+         ['kv level: faults in the in-process store; SQL level: one-shot HTTP 403 answers of the S3 endpoint during a statement; hangs are bounded by the harness timeout'])
 # ---------------------------------------------------------------- C18 (node encryption)
 def c18_monitor(ctx, res, fn, case, impl, model, spec):
     t = case.split()
